@@ -25,6 +25,10 @@
     units.fromsi_s <sys> <string> <x>        -> <bits> | err
     units.ub       <string>                  -> 0 | 1                   (would parse() index parts[1] out of bounds?)
     units.udadim   <sys> <UDAControl name>   -> <scale> <offset> | err  (uda_dim)
+    units.quant_q  <sys> <quantity> <scale> <offset> -> ok | differs <num/den> <num/den> | unknown
+                   (the harness's own number for the unit of a physical quantity vs `Spec.quantValue`, 8 roundings)
+    units.itemq    <KEYWORD.record.ITEM>      -> quantity,… | none   (hand-written item table, translator's copy)
+    units.itemqcount                         -> number of entries
     units.fpunits                            -> SECTION.KW=<hex unit>,… sorted (FieldProps.hpp unit strings)
     units.fpsi     <sys> <SECTION> <KW> <x>  -> <bits> | err            (FieldProps::getSIValue's conversion)
 
@@ -41,6 +45,7 @@
 import OpmVerif.Model.Units
 import OpmVerif.Model.UnitsUse
 import OpmVerif.Model.Basic
+import OpmVerif.Proofs.UnitsQuantSpec   -- hand-written quantity specification (core Lean, definitions only)
 -- driver: prefix=units handler=OpmVerif.Units.handle
 
 namespace OpmVerif.Units
@@ -172,6 +177,23 @@ def handle (op : String) (args : List String) : String :=
       | .undefined dm => "undef " ++ showDimF dm
       | .err => "err"
     | _, _, _, _ => "bad-op"
+  | "units.quant_q", [s, q, sc, off] =>
+    match sysAt Rat s with
+    | some sd =>
+      match sd.deckName.bind (fun deck => Spec.quantValue deck q) with
+      | some (vs, vo) =>
+        let close (v : Rat) (d : Option Rat) : Bool :=
+          match d with
+          | some d => decide (absRat (v - d) ≤ 8 * uRound * absRat v)
+          | none => false
+        if close vs (ratOfHex sc) && close vo (ratOfHex off) then "ok" else "differs " ++ showRat vs ++ " " ++ showRat vo
+      | none => "unknown"
+    | none => "bad-op"
+  | "units.itemqcount", [] => toString Gen.UnitsQuant.itemQuantities.length
+  | "units.itemq", [key] =>
+    match Gen.UnitsQuant.itemQuantities.find? (·.1 == key) with
+    | some e => ",".intercalate e.2
+    | none => "none"
   | "units.kwitemcount", [] => toString keywordItemDims.length
   | "units.tosi_s", [s, strHex, x] =>
     match sysAt Float s, strOfHex strHex, floatOfHex x with
